@@ -116,6 +116,10 @@ pub fn types_for<B: Backend>(out: &mut Vec<TextType>) {
     // the same token types under a payload encoding with a non-empty suffix
     tt!(out, B, "token.local+suffix", format!("{v}.x1.local."), true, None, true, SealedToken<V<B>, Local, RawS, Vec<u8>>);
     tt!(out, B, "token.public+suffix", format!("{v}.x1.public."), true, None, true, SealedToken<V<B>, Public, RawS, Vec<u8>>);
+    // ... and with a typed JSON footer: the footer must then be JSON for the token to parse (by design),
+    // but an accepted text still re-serialises to itself, whatever the spelling of its footer
+    tt!(out, B, "token.local+json-footer", format!("{v}.local."), false, None, true, SealedToken<V<B>, Local, Raw, paseto_json::Json<serde_json::Value>>);
+    tt!(out, B, "token.public+json-footer", format!("{v}.public."), false, None, true, SealedToken<V<B>, Public, Raw, paseto_json::Json<serde_json::Value>>);
     tt!(out, B, "keytext.local", format!("{k}.local."), true, None, false, KeyText<V<B>, Local>);
     tt!(out, B, "keytext.public", format!("{k}.public."), true, None, false, KeyText<V<B>, Public>);
     tt!(out, B, "keytext.secret", format!("{k}.secret."), true, None, false, KeyText<V<B>, Secret>);
